@@ -166,7 +166,7 @@ func (f *File) syncWithoutLocking() error {
 				// Some OSes like i.e. Windows don't support numeric GIDs and UIDs, so use 0 instead
 				gid := 0
 				uid := 0
-				modTime := f.info.ModTime()
+				modTime := time.Now() // The content changes now
 				accessTime := f.info.ModTime()
 				changeTime := f.info.ModTime()
 				sys, ok := f.info.Sys().(*Stat)
